@@ -470,6 +470,9 @@ class Interp:
                 err.loc = None        # position of an error inside a slot: not stated
                 raise
             if v[0] != 'str': raise RefError('type-context', None, context='slot', exp='string', got=tname(v))
+            if not any(is_sym(x) for x in v[1]):
+                try: bytes(v[1]).decode('utf-8')
+                except UnicodeDecodeError: raise Unspecified('slot value that is not UTF-8 text (the statement speaks of Unicode text)')
             out.extend(v[1]); last = b
         out.extend(s[last:])
         return tuple(out)
